@@ -332,3 +332,111 @@ func init() {
 		return last
 	})
 }
+
+// ---- stop requests for PIDs that name nobody ------------------------------------------------
+
+// UCase: "Every such context eventually becomes done - also for an unknown or already stopped PID".
+// Nothing is pending for such a request, so its context is done when the call returns or never.
+type UCase struct {
+	Reqs []UReq `json:"reqs"`
+}
+
+type UReq struct {
+	How  string `json:"how"`  // stop | poison | poisonctx
+	What string `json:"what"` // nil | unknown | foreign (unknown id on another address) | stopped | stopped-foreign
+}
+
+func runUnknown(c UCase) error {
+	if len(c.Reqs) < 1 || len(c.Reqs) > 12 {
+		return nil
+	}
+	e, err := actor.NewEngine(actor.NewEngineConfig())
+	if err != nil {
+		return fmt.Errorf("%w: %v", errHarness, err)
+	}
+	old := e.SpawnFunc(func(*actor.Context) {}, "gone", actor.WithID("1"))
+	<-e.Poison(old).Done()
+	by := e.SpawnFunc(func(ctx *actor.Context) {
+		if _, ok := ctx.Message().(int); ok {
+			ctx.Respond("pong")
+		}
+	}, "bystander")
+	for i, r := range c.Reqs {
+		var pid *actor.PID
+		switch r.What {
+		case "nil":
+		case "unknown":
+			pid = actor.NewPID(e.Address(), fmt.Sprintf("nobody/%d", i))
+		case "foreign":
+			pid = actor.NewPID("10.1.2.3:4000", fmt.Sprintf("nobody/%d", i))
+		case "stopped":
+			pid = actor.NewPID(e.Address(), "gone/1")
+		case "stopped-foreign":
+			pid = actor.NewPID("10.1.2.3:4000", "gone/1")
+		default:
+			return nil
+		}
+		var ctx context.Context
+		var perr any
+		func() {
+			defer func() { perr = recover() }()
+			switch r.How {
+			case "stop":
+				ctx = e.Stop(pid)
+			case "poison":
+				ctx = e.Poison(pid)
+			default:
+				ctx = e.PoisonCtx(context.Background(), pid)
+			}
+		}()
+		if perr != nil {
+			return fmt.Errorf("request %d: %s of a %s PID panicked: %v", i, r.How, r.What, perr)
+		}
+		select {
+		case <-ctx.Done():
+		case <-time.After(5 * time.Second):
+			return fmt.Errorf("request %d: the context of %s for a %s PID (%v) never became done; nobody is left who could complete it", i, r.How, r.What, pid)
+		}
+	}
+	if v, rerr := e.Request(by, 1, 10*time.Second).Result(); rerr != nil || v != "pong" {
+		return fmt.Errorf("after stop requests for unknown PIDs a bystander actor no longer answers (%v)", rerr)
+	}
+	return nil
+}
+
+func TestStopUnknown(t *testing.T) {
+	st := vh.Test("TestStopUnknown")
+	rapid.Check(t, func(t *rapid.T) {
+		n := rapid.IntRange(1, 6).Draw(t, "n")
+		c := UCase{}
+		for i := 0; i < n; i++ {
+			c.Reqs = append(c.Reqs, UReq{
+				How:  rapid.SampledFrom([]string{"stop", "poison", "poisonctx"}).Draw(t, "how"),
+				What: rapid.SampledFrom([]string{"nil", "unknown", "foreign", "stopped", "stopped-foreign"}).Draw(t, "what"),
+			})
+		}
+		st.Begin(c)
+		if err := runUnknown(c); err != nil {
+			if errors.Is(err, errHarness) {
+				t.Fatalf("harness: %v", err)
+			}
+			st.Fail(c, err)
+			t.Fatalf("%v", err)
+		}
+		kinds := map[string]bool{}
+		for _, r := range c.Reqs {
+			kinds[r.What] = true
+		}
+		st.Done(c, len(kinds) >= 2, "stop-requests-for-nobody")
+	})
+}
+
+func init() {
+	vh.RegisterReplay("TestStopUnknown", func(raw json.RawMessage) error {
+		var c UCase
+		if err := json.Unmarshal(raw, &c); err != nil {
+			return err
+		}
+		return runUnknown(c)
+	})
+}
